@@ -28,12 +28,14 @@ def make_cases(chk):
         n = rng.choice([1, 2, 2, 3] if quick else [1, 2, 2, 3, 3, 4])
         A, b = gen_system(rng, cat, n, not quick)
         if i % 5 == 0 and len(A) >= 2:      # exact duplicates and positively scaled copies
-            A.append([3 * v for v in A[1]])
-            b.append(3 * b[1])
-            A.insert(0, list(A[1]))
-            b.insert(0, b[1])
             A = [[FR(float(v)) for v in r] for r in A]      # the library sees the f64 rounding
             b = [FR(float(v)) for v in b]
+            # the copy must be an exact multiple *as f64*: 3*fl(v) is not always representable, a power of two is
+            k = 3 if all(FR(float(3 * v)) == 3 * v for v in A[1] + [b[1]]) else 2
+            A.append([k * v for v in A[1]])
+            b.append(k * b[1])
+            A.insert(0, list(A[1]))
+            b.insert(0, b[1])
         cases.append({"id": "r%d" % i, "steps": [{"op": "redundant", "poly": aff_json(A, b, n)}], "A": A, "b": b,
                       "meta": {"category": cat, "n": n, "rows": len(A)}})
     return cases
